@@ -48,7 +48,7 @@ pub fn merge_check<T: UniMerge + UniIngest>(prop: &'static str, alpha_name: &str
         alpha_name: format!("{alpha_name}{k}"),
         alpha: sub_alphabet(alpha_name, k),
         max_len,
-        cap_per_word: 4_000,
+        cap_per_word: word_cap(),
         judge: moment_judge::<T>(filter, cache, board, T::ORDER >= 4),
         extra: Box::new(move || json!({"worst_error_over_envelope": b2.dump(), "distinct_multisets": c2.len()})),
     })
@@ -65,6 +65,11 @@ fn family<T: UniMerge + UniIngest>(checks: &mut Vec<Box<dyn Check>>, tier: Tier)
         checks.push(merge_check::<T>("C02", a, 4, if q { 5 } else { 6 }, filter));
     }
     if !q {
+        if T::ORDER <= 2 {
+            // the low orders are cheap enough for 7-letter words over 4 letters
+            checks.push(merge_check::<T>("C02", "small", 4, 7, filter));
+            checks.push(merge_check::<T>("C02", "off9", 4, 7, filter));
+        }
         checks.push(merge_check::<T>("C02", "two13", 2, 9, filter));
         checks.push(merge_check::<T>("C02", "tri", 3, if T::ORDER >= 5 { 7 } else { 8 }, filter));
     } else {
